@@ -14,6 +14,8 @@
   video and the audio adaptation set of one period use DIFFERENT single key ids;
 * `nl`: encrypted bbb tracks on a stream WITHOUT stored licence URLs (the code falls back to its
   built-in default);
+* `lay`: clear and encrypted video tracks whose stored init segments have permuted / extended
+  moov and mvex layouts (c10_layout.py);
 * extra rows in the `key` table (computed and non-computed keys) for the ClearKey
   licence checks;
 * a multi-period stream `c10mps` (period 1 = bbb, period 2 = tears, period 3 = mk).
@@ -64,6 +66,7 @@ class Env:
         self._add_multikey_stream("m3", {"v6_enc": [KID_A, KID_B, KID_D], "a1_enc": [KID_A, KID_B, KID_D]})
         self._add_split_key_stream()
         self._add_no_la_stream()
+        self.layout_tracks = self._add_layout_stream()
         self._add_extra_keys()
         self.mps_periods = self._add_mps()
 
@@ -113,6 +116,35 @@ class Env:
             st.marlin_la_url = None
             m.db.session.commit()
 
+    def _add_layout_stream(self):
+        """stream `lay`: copies of bbb_v6 (clear) and bbb_v6_enc (encrypted) whose stored init segments
+        have their moov / mvex children arranged differently (see c10_layout.variants)"""
+        import c10_layout
+        src_dir = appboot.FIXTURES / "bbb"
+        files, names = [], []
+        for base in ("bbb_v6", "bbb_v6_enc"):
+            data = (src_dir / f"{base}.mp4").read_bytes()
+            cut = c10_layout.first_moof(data)
+            js0 = json.loads((src_dir / f"rep-{base}.json").read_text())
+            assert js0["segments"][0]["pos"] == 0 and js0["segments"][0]["size"] == cut
+            for vname, init in c10_layout.variants(data[:cut]).items():
+                stem = f"lay_{vname}_{'enc' if base.endswith('enc') else 'clr'}"
+                js = json.loads(json.dumps(js0))
+                js["id"] = stem
+                js["filename"] = f"{stem}.mp4"
+                delta = len(init) - cut
+                js["segments"][0]["size"] = len(init)
+                for seg in js["segments"][1:]:
+                    seg["pos"] += delta
+                (self.tmp / f"rep-{stem}.json").write_text(json.dumps(js))
+                path = self.tmp / f"{stem}.mp4"
+                path.write_bytes(init + data[cut:])
+                files.append((stem, path))
+                names.append(stem)
+        self.app.add_stream("lay", "stored layout variety", files, real_index=False,
+                            rep_cache=lambda s: self.tmp / f"rep-{s}.json")
+        return names
+
     def _add_extra_keys(self):
         from dashlive.drm.playready import PlayReady
         with self.app.ctx() as m:
@@ -131,7 +163,7 @@ class Env:
         with self.app.ctx() as m:
             mps = m.MultiPeriodStream(name=MPS_NAME, title="C10/C11 multi-period stream")
             m.db.session.add(mps)
-            for idx, (directory, secs) in enumerate((("bbb", 20), ("tears", 24), ("mk", 12)), start=1):
+            for idx, (directory, secs) in enumerate((("bbb", 20), ("tears", 24), ("mk", 12), ("lay", 12)), start=1):
                 stream = m.Stream.get(directory=directory)
                 prd = m.Period(pid=f"p{idx}", parent=mps, ordering=idx, stream=stream,
                                start=datetime.timedelta(seconds=0),
